@@ -153,9 +153,18 @@ def run_case(case, ctx):
             have = set(map(tuple, zeros_live[key0]))
             cand = [c for c in itertools.product(*[range(shape[attrs.index(a)]) for a in key0]) if c not in have]
             if cand and len(have) + 1 <= max(1, n_of(key0) // 2):
-                zeros_live[key0].append(cand[int(np.random.randint(len(cand)))])
-                Z = forbidden_mask(attrs, shape, zeros_live)
-                ctx.tag('zero_list_extended_in_place_between_estimators')
+                pick = cand[int(np.random.randint(len(cand)))]
+                trial = copy.deepcopy(zeros_live)
+                trial[key0].append(pick)
+                if forbidden_mask(attrs, shape, trial).all():
+                    # together with the other lists this cell would rule out every cell of the domain: no distribution
+                    # satisfies such a specification and the property says nothing about it (quick seed 7, g119 was a
+                    # false alarm of this kind: the model handed back sums to 0 because nothing is possible)
+                    ctx.tag('extension_skipped_would_empty_the_support')
+                else:
+                    zeros_live[key0].append(pick)
+                    Z = forbidden_mask(attrs, shape, zeros_live)
+                    ctx.tag('zero_list_extended_in_place_between_estimators')
         ctx.tag('solver:' + call['solver'])
         total = case['total'] if case['give_total'] else None
         if case['warm']:
